@@ -18,13 +18,18 @@ from corr import exec_common as X
 from corr import C04 as K
 from gen import operation as go
 from gen import schema as gs
+from gen import leading_node as LN
+from gen import overlap_memo as OM
 
 PROPERTY = "C05"
 RULE = ("three streams over generated schemas: valid generated operations, hand-shaped adversarial documents (duplicate "
         "fields with list/object/null/variable arguments, fragments on unknown types, nested multi-letter fragments with "
         "conflicts, a variable at two differently typed positions, cycles, unknown names, leaf/composite misuse, bad "
         "directives) and token mutants of valid documents; distinct by (schema, text); non-trivial = parsed and either "
-        "rejected with >=1 error, or accepted and executed with >=1 resolved field")
+        "rejected with >=1 error, or accepted and executed with >=1 resolved field; PLUS deterministic classes under FIXED worlds: "
+        "divergent-args (interface field whose implementations declare different arguments), leading-node (gen/leading_node.py: one "
+        "field node heading two different merged node lists; fixed schema + every generated schema), exclusive-then-strict "
+        "(gen/overlap_memo.py: a (selection set, fragment) pair compared first under exclusive parents then strictly), rootless operations")
 ASSUMPTIONS = [
     "typed worlds only for the safety implication (resolver results of the declared types, ResolverError allowed)",
     "variables rejected by coerce_variable_values are not 'accepted variables' and end the case",
@@ -449,6 +454,7 @@ def run(ctx):
     use_lean = ctx.model_ok and ctx.driver.available()
     lean_batch = [] if use_lean else None
     fixed_cases(ctx, lean_batch)
+    built = []
     for si in range(n_schemas):
         if ctx.time_left() < 15:
             ctx.notes.append("stopped early at schema %d (time)" % si)
@@ -489,9 +495,19 @@ def run(ctx):
             if st != "syntax" and (stream == "history" or (st == "accepted" and stream != "valid") or rng.random() < 0.08):
                 judged.append((stream, label, text, vs, opname, st, [d[2] for d in docs[:di]]))
         compare_with_fresh_process(ctx, sdl, enum_kind, judged)
+        built.append((schema, holder, dump, sdl, enum_kind, desc))
         if use_lean and len(lean_batch) >= 150:
             flush_lean(ctx, lean_batch)
             del lean_batch[:]
+    # generated CLASS leading-node on every schema of this run (a function of the schema description; fixed worlds), after
+    # the random streams so that it does not shift them
+    for schema, holder, dump, sdl, enum_kind, desc in built:
+        if ctx.time_left() < 8:
+            ctx.notes.append("leading-node class stopped early (time)")
+            break
+        for label, text, vs in LN.leading_node_documents(desc) + OM.exclusive_then_strict_documents(desc):
+            ctx.stat("class:" + label)
+            one_document(ctx, schema, holder, dump, sdl, enum_kind, label, text, vs, None, lean_batch, "class", seeds=[0, 1, 2])
     if use_lean and lean_batch:
         flush_lean(ctx, lean_batch)
     if id(ctx) in _FRESH:
@@ -643,6 +659,16 @@ def fixed_cases(ctx, lean_batch):
     schema, holder, dump = X.build(DIVERGENT_SDL, 0)
     for label, text, vs in DIVERGENT:
         one_document(ctx, schema, holder, dump, DIVERGENT_SDL, 0, label, text, vs, None, lean_batch, "fixed", seeds=DIVERGENT_SEEDS)
+    # one field node leading two different merged node lists in one request (seeded C05-12 / C04-11): fixed worlds
+    schema, holder, dump = X.build(LN.FIXED_SDL, 0)
+    for label, text, vs in LN.FIXED_DOCS:
+        one_document(ctx, schema, holder, dump, LN.FIXED_SDL, 0, label, text, vs, None, lean_batch, "fixed", seeds=LN.FIXED_SEEDS)
+    # the same (selection set, fragment) pair compared by the merge rule first below mutually exclusive parents, then in a
+    # non-exclusive context where it conflicts (seeded C05-11): if such a document is accepted, some world shows two
+    # different fields under one response key
+    schema, holder, dump = X.build(OM.FIXED_SDL, 0)
+    for label, text, vs in OM.FIXED_DOCS:
+        one_document(ctx, schema, holder, dump, OM.FIXED_SDL, 0, label, text, vs, None, lean_batch, "fixed", seeds=OM.FIXED_SEEDS)
 
 
 def flush_lean(ctx, batch):
